@@ -226,15 +226,17 @@ Fixpoint edge_finished (fuel : nat) (g : graph) (cfg : config) (prio : list nat)
 
 Definition plan_fuel (g : graph) : nat := S (n_edges g).
 
-(* Plan::ScheduleInitialEdges.  The want_ map is iterated in pointer order in the code; the result
-   does not depend on the order because pool edges are only collected and retrieved at the end. *)
+(* Plan::ScheduleInitialEdges (with the fix "mark initially pool-delayed edges as scheduled": the
+   pool branch sets kWantToFinish before DelayEdge, as ScheduleWork does).  The want_ map is iterated
+   in pointer order in the code; the result does not depend on the order because pool edges are
+   only collected and retrieved at the end. *)
 Definition sched_init_edge (g : graph) (e : nat) (p : plan) : plan :=
   match p_want p e with
   | Some WToStart =>
     if all_inputs_ready g p e then
       if Nat.eqb (depth g (pool g e)) 0
       then set_ready (set_want p (upd (p_want p) e (Some WToFinish))) (e :: p_ready p)
-      else set_delayed p (e :: p_delayed p)   (* DelayEdge only: want_ stays kWantToStart (!) *)
+      else set_delayed (set_want p (upd (p_want p) e (Some WToFinish))) (e :: p_delayed p)
     else p
   | _ => p
   end.
@@ -338,10 +340,12 @@ Definition step_res (g : graph) (cfg : config) (s : state) (ev : event) : res st
                      (s_finished s) (s_failed s) true (s_phase s))
     else Forbidden
   | EvPrune e =>
-    (* Plan::CleanNode on a wanted out-edge of a node whose producer is not yet outputs_ready *)
+    (* Plan::CleanNode reaches a wanted out-edge of a node whose producer is not yet outputs_ready
+       (the finishing restat edge, or an edge it has just pruned); the code tests want != Nothing:
+       with an input not ready the edge cannot be kWantToFinish ([pi_sched_f] in PlanProofs.v) *)
     if in_build s && s_waiting s
        && (match p_want p e with Some WToStart => true | _ => false end)
-       && negb (memb e (scheduled s)) && negb (all_inputs_ready g p e)
+       && negb (all_inputs_ready g p e)
     then
       match p_wanted p with
       | O => Forbidden
@@ -509,3 +513,59 @@ Definition want_list (g : graph) (p : plan) : list (nat * option want_t) :=
   map (fun e => (e, p_want p e)) (all_edges g).
 Definition use_list (g : graph) (p : plan) : list (nat * nat) :=
   map (fun q => (q, p_use p q)) (seq 0 (length (g_depths g))).
+
+(* ------------------------------------------------------------------ a concrete example *)
+(* Four edges: commands 0 and 1 (no producer inputs) share pool 1 of depth 1; command 2 consumes
+   both; phony edge 3 consumes 2.  -j2 -k1.  Everything is dirty and wanted. *)
+Definition is_some {A : Type} (o : option A) : bool := match o with Some _ => true | None => false end.
+
+Definition ex_graph : graph :=
+  mkGraph [ mkEdge [] [2] 1 false; mkEdge [] [2] 1 false; mkEdge [0; 1] [3] 0 false;
+            mkEdge [2] [] 0 true ] [0; 1].
+Definition ex_rank : nat -> nat := fun e => e.
+Definition ex_cfg : config := mkConfig 2 1 None.
+Definition ex_cfg_js : config := mkConfig 2 1 (Some 1).
+Definition ex_snap : snapshot :=
+  mkSnap (fun e => if e <? 4 then Some WToStart else None) (fun _ => false) 4 3.
+Definition ex_prio : list nat := [0; 1; 2; 3].
+
+(* the successful build; edge 1 waits in the pool's delayed set until 0 has finished *)
+Definition ex_trace_ok : list event :=
+  [ EvStart 0 ex_prio; EvWait; EvFinish 0 0 ex_prio; EvStart 1 ex_prio; EvWait; EvFinish 1 0 ex_prio;
+    EvStart 2 ex_prio; EvWait; EvFinish 2 0 ex_prio; EvStart 3 ex_prio; EvExit 0 MSuccess ].
+(* command 0 fails with status 7: nothing else is started, exit status 7 *)
+Definition ex_trace_fail : list event :=
+  [ EvStart 0 ex_prio; EvWait; EvFinish 0 7 ex_prio; EvExit 7 MSubcommandFailed ].
+(* restat: while 0 completes, 2 and 3 are pruned; they are checked off when 1 has finished *)
+Definition ex_trace_prune : list event :=
+  [ EvStart 0 ex_prio; EvWait; EvPrune 2; EvPrune 3; EvFinish 0 0 ex_prio; EvStart 1 ex_prio; EvWait;
+    EvFinish 1 0 ex_prio; EvExit 0 MSuccess ].
+Definition ex_trace_interrupt : list event :=
+  [ EvStart 0 ex_prio; EvWait; EvInterrupt; EvExit 130 MInterrupted ].
+
+Example ex_wf : wf_graph_b ex_graph ex_rank && wf_snap_b ex_graph ex_snap && wf_cfg_b ex_cfg = true.
+Proof. vm_compute. reflexivity. Qed.
+Example ex_ok : is_some (run ex_graph ex_cfg ex_prio ex_snap ex_trace_ok) = true.
+Proof. vm_compute. reflexivity. Qed.
+Example ex_ok_js : is_some (run ex_graph ex_cfg_js ex_prio ex_snap ex_trace_ok) = true.
+Proof. vm_compute. reflexivity. Qed.
+Example ex_fail : is_some (run ex_graph ex_cfg ex_prio ex_snap ex_trace_fail) = true.
+Proof. vm_compute. reflexivity. Qed.
+Example ex_prune : is_some (run ex_graph ex_cfg ex_prio ex_snap ex_trace_prune) = true.
+Proof. vm_compute. reflexivity. Qed.
+Example ex_interrupt : is_some (run ex_graph ex_cfg ex_prio ex_snap ex_trace_interrupt) = true.
+Proof. vm_compute. reflexivity. Qed.
+(* rejected: starting 1 while 0 holds the pool; starting 2 before its producers finished; exiting
+   with success while work remains; starting anything after the failure *)
+Example ex_reject_pool :
+  is_some (run ex_graph ex_cfg ex_prio ex_snap [EvStart 0 ex_prio; EvStart 1 ex_prio]) = false.
+Proof. vm_compute. reflexivity. Qed.
+Example ex_reject_early :
+  is_some (run ex_graph ex_cfg ex_prio ex_snap [EvStart 0 ex_prio; EvWait; EvFinish 0 0 ex_prio; EvStart 2 ex_prio]) = false.
+Proof. vm_compute. reflexivity. Qed.
+Example ex_reject_exit :
+  is_some (run ex_graph ex_cfg ex_prio ex_snap [EvStart 0 ex_prio; EvWait; EvFinish 0 0 ex_prio; EvExit 0 MSuccess]) = false.
+Proof. vm_compute. reflexivity. Qed.
+Example ex_reject_after_failure :
+  is_some (run ex_graph ex_cfg ex_prio ex_snap [EvStart 0 ex_prio; EvWait; EvFinish 0 7 ex_prio; EvStart 1 ex_prio]) = false.
+Proof. vm_compute. reflexivity. Qed.
